@@ -279,8 +279,10 @@ class Query:
             return terms[0]
         return "(+ " + " ".join(terms) + ")"
 
-    def lin_zero(self, lf):
-        """SMT Bool: linear form == 0 (mod r), as L = k*r with bounded k."""
+    def lin_zero(self, lf, positive=False):
+        """SMT Bool: linear form == 0 (mod r), as L = k*r with bounded k.
+        A fresh existential k is only sound where the atom occurs POSITIVELY
+        (asserted rows); in any other context a `mod` atom is used."""
         lo = hi = lf.get(1, 0)
         for k, c in lf.items():
             if k == 1:
@@ -301,6 +303,8 @@ class Query:
         if khi - klo <= 6:
             alts = [f"(= {L} {sint(k * R)})" for k in range(klo, khi + 1)]
             return alts[0] if len(alts) == 1 else "(or " + " ".join(alts) + ")"
+        if not positive:
+            return f"(= (mod {L} {R}) 0)"
         k = self.fresh(klo, khi)
         return f"(= {L} (* {k} {R}))"
 
@@ -319,23 +323,26 @@ class Query:
         memo[e.id] = s
         return s
 
-    def zero(self, e, depth=0):
-        """SMT Bool for `e == 0 in F_r` (integral-domain rewriting)."""
+    def zero(self, e, depth=0, positive=False):
+        """SMT Bool for `e == 0 in F_r` (integral-domain rewriting).
+        `positive=True` only when the formula is asserted as is (not negated,
+        not under an implication premise)."""
         if e.op == "c":
             return "true" if e.args[0] % R == 0 else "false"
         if e.op == "n":
-            return self.zero(e.args[0], depth)
+            return self.zero(e.args[0], depth, positive)
         lf = linear_form(e, self.lin_memo)
         if lf is not None:
-            return self.lin_zero(lf)
+            return self.lin_zero(lf, positive)
         if e.op == "*":
-            return f"(or {self.zero(e.args[0], depth + 1)} {self.zero(e.args[1], depth + 1)})"
-        fac = self.factor_univariate(e)
+            return (f"(or {self.zero(e.args[0], depth + 1, positive)} "
+                    f"{self.zero(e.args[1], depth + 1, positive)})")
+        fac = self.factor_univariate(e, positive)
         if fac is not None:
             return fac
         return f"(= (mod {self.int_expr(e, {})} {R}) 0)"
 
-    def factor_univariate(self, e):
+    def factor_univariate(self, e, positive=False):
         """Encoder-proposed factorisation of a univariate quadratic
         alpha*x^2+beta*x+gamma = alpha*(x-r1)*(x-r2); the proposal is
         untrusted: the identity is queued in `self.hints` and must be proven
@@ -363,7 +370,8 @@ class Query:
         xv = ctx.var(x)
         prod = ctx.const(al) * (xv - r1) * (xv - r2)
         self.hints.append((e, prod))
-        return f"(or {self.lin_zero({x: 1, 1: bal(-r1)})} {self.lin_zero({x: 1, 1: bal(-r2)})})"
+        return (f"(or {self.lin_zero({x: 1, 1: bal(-r1)}, positive)} "
+                f"{self.lin_zero({x: 1, 1: bal(-r2)}, positive)})")
 
     def add(self, s):
         self.asserts.append(s)
@@ -438,7 +446,7 @@ def encode_layout(q, rowsem, layout, rows=None, pi_exprs=None, wmap=None):
         if i in layout.pis:
             pi = pi_exprs[i] if pi_exprs and i in pi_exprs else ctx.const(layout.pis[i])
         for name, comp in rowsem.row_components(sel, wires, pi):
-            f = q.zero(comp)
+            f = q.zero(comp, positive=True)
             q.add(f)
             out.append((i, name, f))
     return out
@@ -632,7 +640,7 @@ def propagate_bounds(rowsem, layout, rows=None, init=None, passes=2):
                 for v in vs:
                     blo, bhi = bounds.get(v, full)
                     q.var(v, blo, bhi)
-                q.add(q.zero(comp))
+                q.add(q.zero(comp, positive=True))
                 tv = q.var(t)
                 q.add(f"(not (and (<= {lo_all} {tv}) (<= {tv} {hi_all})))")
                 lemmas.append((f"r{i}/{cname}/{t}", q))
